@@ -1,9 +1,80 @@
-(* C02 — property theorems only.  Proofs are in C02/Proofs.v. *)
+(* C02 — property theorems only.  Proofs are in C02/Proofs.v and Base/DecFacts.v.
+   The theorems are about the specification model (Base/DecRound.v); the C kernel is tied to it by the correspondence check only. *)
 From Coq Require Import ZArith NArith Bool List.
-From DV Require Import Base.Dec Base.DecRound C02.Model C02.Proofs.
+From DV Require Import Base.Dec Base.DecFacts Base.DecRound C02.Model C02.Proofs.
 Import ListNotations.
 Open Scope Z_scope.
 
+(* HEADLINE.  The rounding step every operation ends with returns a decimal128 datum (exponent in range) whose value is a
+   nearest one to the exact value m*10^e at the target quantum (34 digits, or the subnormal grid), half-way cases go to the even
+   coefficient, and nothing is rounded when the exact value fits.  All values are written at the common base exponent b. *)
+Theorem C02_round34_nearest_even : forall s m e d, (0 < m)%N -> round34 s m e = Some d ->
+  let e1 := target_exp m e in let b := Z.min e ETINY in
+  neg d = s /\ ETINY <= expo d <= ETOP /\
+  2 * Z.abs (Z.of_N (coef d) * 10 ^ (expo d - b) - Z.of_N m * 10 ^ (e - b)) <= 10 ^ (e1 - b) /\
+  (e < e1 -> 2 * Z.abs (Z.of_N (coef d) * 10 ^ (expo d - b) - Z.of_N m * 10 ^ (e - b)) = 10 ^ (e1 - b) ->
+   N.even (round_half_even m (Z.to_N (e1 - e))) = true) /\
+  (e1 = e -> Z.of_N (coef d) * 10 ^ (expo d - b) = Z.of_N m * 10 ^ (e - b)).
+Proof. exact round34_nearest_even. Qed.
+
+Theorem C02_round_half_even : forall m drop, (0 < drop)%N ->
+  let p := (10 ^ drop)%N in let q := round_half_even m drop in
+  2 * Z.abs (Z.of_N q * Z.of_N p - Z.of_N m) <= Z.of_N p /\
+  (2 * Z.abs (Z.of_N q * Z.of_N p - Z.of_N m) = Z.of_N p -> N.even q = true).
+Proof. exact round_half_even_spec. Qed.
+
+(* representable values are returned unchanged (also: a literal of up to 34 significant digits is exact, C07) *)
+Theorem C02_round_exact : forall s m e, (m < 10 ^ PREC)%N -> ETINY <= e <= ETOP -> round34 s m e = Some (mkdec s m e).
+Proof. exact round34_exact. Qed.
+
+(* + and * : the exact integer result, then one rounding; exact when the exact result is representable *)
+Theorem C02_add_exact_then_round : forall a b,
+  dadd a b = round_Z (scaled a (emin2 a b) + scaled b (emin2 a b)) (emin2 a b) (neg a && neg b).
+Proof. exact dadd_exact_then_round. Qed.
+Theorem C02_mul_exact_then_round : forall a b,
+  dmul a b = round34 (xorb (neg a) (neg b)) (coef a * coef b) (expo a + expo b).
+Proof. exact dmul_exact_then_round. Qed.
+Theorem C02_add_exact : forall a b, Z.abs (scaled a (emin2 a b) + scaled b (emin2 a b)) < 10 ^ 34 -> ETINY <= emin2 a b <= ETOP ->
+  exists r, dadd a b = Some r /\ expo r = emin2 a b /\ sval r = scaled a (emin2 a b) + scaled b (emin2 a b).
+Proof. exact dadd_exact. Qed.
+Theorem C02_mul_exact : forall a b, (coef a * coef b < 10 ^ PREC)%N -> ETINY <= expo a + expo b <= ETOP ->
+  dmul a b = Some (mkdec (xorb (neg a) (neg b)) (coef a * coef b) (expo a + expo b)).
+Proof. exact dmul_exact. Qed.
+
+(* comparison is by value: equal numbers compare equal whatever their trailing zeros; equality is an equivalence, < is transitive, antisymmetric *)
+Theorem C02_trailing_zeros_equal : forall s c e k, 0 <= k -> dcmp (mkdec s c e) (mkdec s (c * 10 ^ Z.to_N k)%N (e - k)) = Eq.
+Proof. exact trailing_zeros_equal. Qed.
+Theorem C02_cmp_eq_iff_value : forall a b, dcmp a b = Eq <-> veq a b.
+Proof. exact dcmp_eq_iff_veq. Qed.
+Theorem C02_cmp_antisym : forall a b, dcmp b a = CompOpp (dcmp a b).
+Proof. exact dcmp_antisym. Qed.
+Theorem C02_value_eq_trans : forall a b c, veq a b -> veq b c -> veq a c.
+Proof. exact veq_trans. Qed.
+Theorem C02_cmp_lt_trans : forall a b c, dcmp a b = Lt -> dcmp b c = Lt -> dcmp a c = Lt.
+Proof. exact dcmp_lt_trans. Qed.
+(* reduce-after-operation does not change the value *)
+Theorem C02_reduce_value : forall d, veq (dreduce d) d.
+Proof. exact dreduce_value. Qed.
+
+(* floor and ceiling are the integer floor and ceiling of the value *)
+Theorem C02_floor_spec : forall d, expo d < 0 -> zfloor d * 10 ^ (- expo d) <= sval d < (zfloor d + 1) * 10 ^ (- expo d).
+Proof. exact zfloor_spec. Qed.
+Theorem C02_ceiling_spec : forall d, expo d < 0 -> (zceil d - 1) * 10 ^ (- expo d) < sval d <= zceil d * 10 ^ (- expo d).
+Proof. exact zceil_spec. Qed.
+
+(* modulo (Spec): the exact remainder a - b*floor(a/b), with the sign of the divisor *)
+Theorem C02_mod_exact_remainder : forall a b, coef b <> 0%N ->
+  let e := emin2 a b in let r := scaled a e - scaled b e * floor_div a b in
+  r = (scaled a e) mod (scaled b e) /\ ((0 <= r < scaled b e) \/ (scaled b e < r <= 0)).
+Proof. exact dmod_exact_remainder. Qed.
+
+(* undefined results are null; a result of the model is a finite datum by construction (type dec has no Infinity and no NaN) *)
+Theorem C02_div_by_zero_null : forall a b, coef b = 0%N -> ddiv a b = None /\ dmod a b = None.
+Proof. exact div_by_zero_null. Qed.
+Theorem C02_sqrt_negative_null : forall a, coef a <> 0%N -> neg a = true -> dsqrt a = None.
+Proof. exact sqrt_negative_null. Qed.
+
+(* the code's modulo (every step rounded) is not the Spec: known finding modulo-stepwise-rounding *)
 Theorem C02_mod_steps_refuted : exists a b, mod_known a b = true /\ f_mod a b = Some (mkdec false 1 0) /\ f_mod_steps a b = Some (mkdec false 1 6).
 Proof. exact mod_steps_refuted. Qed.
 
@@ -15,5 +86,23 @@ Example C02_nonvacuous :
   f_cmp (mkdec false 10 (-1)) (mkdec false 100 (-2)) = Eq.
 Proof. exact model_nontrivial. Qed.
 
+Print Assumptions C02_round34_nearest_even.
+Print Assumptions C02_round_half_even.
+Print Assumptions C02_round_exact.
+Print Assumptions C02_add_exact_then_round.
+Print Assumptions C02_mul_exact_then_round.
+Print Assumptions C02_add_exact.
+Print Assumptions C02_mul_exact.
+Print Assumptions C02_trailing_zeros_equal.
+Print Assumptions C02_cmp_eq_iff_value.
+Print Assumptions C02_cmp_antisym.
+Print Assumptions C02_value_eq_trans.
+Print Assumptions C02_cmp_lt_trans.
+Print Assumptions C02_reduce_value.
+Print Assumptions C02_floor_spec.
+Print Assumptions C02_ceiling_spec.
+Print Assumptions C02_mod_exact_remainder.
+Print Assumptions C02_div_by_zero_null.
+Print Assumptions C02_sqrt_negative_null.
 Print Assumptions C02_mod_steps_refuted.
 Print Assumptions C02_nonvacuous.
